@@ -188,6 +188,20 @@ func (s *serverChild) logTail() string {
 	return string(b)
 }
 
+// plainSpec removes the 64 KiB names and values from a fixture that travels over a real gRPC connection: every
+// result group repeats its column names, and a response beyond gRPC's default 4 MiB message limit is refused by
+// the transport (a limit of the deployment, not a statement of any property).
+func plainSpec(sp *DataSpec) {
+	for i := range sp.Cols {
+		if sp.Cols[i].Kind == "huge" {
+			sp.Cols[i].Kind = "utf8"
+		}
+		if len(sp.Cols[i].Name) > 100 {
+			sp.Cols[i].Name = S(fmt.Sprintf("k%d", i))
+		}
+	}
+}
+
 func utf8Spec(sp *DataSpec) {
 	for i := range sp.Cols {
 		if sp.Cols[i].Kind == "bin" || sp.Cols[i].Kind == "order" || sp.Cols[i].Kind == "boundary" || sp.Cols[i].Kind == "joinable" {
@@ -225,6 +239,7 @@ func genC13(c *Ctx) any {
 	cs := &C13Case{Cache: r.Chance(2, 3), Preload: r.Chance(1, 2)}
 	cs.Data.Spec = GenDataSpec(c.Rand("data"), r.Range(0, 150), false)
 	utf8Spec(cs.Data.Spec)
+	plainSpec(cs.Data.Spec)
 	cs.Process = r.Chance(1, 3)
 	if !cs.Process && r.Chance(1, 2) {
 		cs.Data.Spec.WeirdNames(r) // the wire carries any column name; only the text language needs identifiers
@@ -738,14 +753,7 @@ func genC14(c *Ctx) any {
 	utf8Spec(cs.Data.Spec)
 	// the fixture stays ordinary (what is unusual here comes in through requests): a tree whose WRITER trips over
 	// long strings is C01/C05's business and would only keep this check from deciding
-	for i := range cs.Data.Spec.Cols {
-		if cs.Data.Spec.Cols[i].Kind == "huge" {
-			cs.Data.Spec.Cols[i].Kind = "utf8"
-		}
-		if len(cs.Data.Spec.Cols[i].Name) > 100 {
-			cs.Data.Spec.Cols[i].Name = S(fmt.Sprintf("k%d", i))
-		}
-	}
+	plainSpec(cs.Data.Spec)
 	si := infoOf(cs.Data.Spec.Expand())
 	var pool []Hostile
 	var bases []*Query
